@@ -38,6 +38,7 @@ props! {
     "C14" => c14,
     "C15" => c15,
     "C16" => c16,
+    "C17" => c17,
     "C18" => c18,
     "C19" => c19,
     "C20" => c20,
